@@ -12,7 +12,7 @@ use syn::{
 use crate::{
     bound::{Bound, Bounds, WhereClauseBuilder},
     common::BinaryOp,
-    syn_utils::{expand_self, self_type},
+    syn_utils::{atomic_type, expand_self, self_type},
 };
 
 use self::compare_op::{
@@ -198,7 +198,7 @@ fn build_binary_op(
         let mut values = Vec::new();
         for field in fields {
             // In `impl ... for &T`, `Self` is not the type the field was declared in.
-            let field_ty = &expand_self(&field.field.ty, &this_ty);
+            let field_ty = &atomic_type(&expand_self(&field.field.ty, &this_ty));
             let lhs = with_ref(&member(quote!(self), field), lhs_is_ref);
             let rhs = with_ref(&member(quote!(__rhs), field), rhs_is_ref);
             let lhs_ty = with_ref(field_ty, lhs_is_ref);
@@ -208,11 +208,14 @@ fn build_binary_op(
         }
         let ctor_args = build_ctor_args(&item.fields, &values);
         wcb.expand_self_in_types(&this_ty);
-        let wheres = wcb.build(|ty| match (lhs_is_ref, rhs_is_ref) {
-            (true, true) => quote!(for<'__a> &'__a #ty : #trait_<&'__a #ty, Output = #ty>),
-            (true, false) => quote!(for<'__a> &'__a #ty : #trait_<#ty, Output = #ty>),
-            (false, true) => quote!(for<'__a> #ty : #trait_<&'__a #ty, Output = #ty>),
-            (false, false) => quote!(#ty : #trait_<#ty, Output = #ty>),
+        let wheres = wcb.build(|ty| {
+            let ty = &atomic_type(ty);
+            match (lhs_is_ref, rhs_is_ref) {
+                (true, true) => quote!(for<'__a> &'__a #ty : #trait_<&'__a #ty, Output = #ty>),
+                (true, false) => quote!(for<'__a> &'__a #ty : #trait_<#ty, Output = #ty>),
+                (false, true) => quote!(for<'__a> #ty : #trait_<&'__a #ty, Output = #ty>),
+                (false, false) => quote!(#ty : #trait_<#ty, Output = #ty>),
+            }
         });
         quote! {
             #[automatically_derived]
@@ -252,16 +255,19 @@ fn build_assign_op(
         let use_bounds = e.push_bounds_to(&mut wcb);
         let mut exprs = Vec::new();
         for field in fields {
-            let field_ty = &field.field.ty;
+            let field_ty = &atomic_type(&field.field.ty);
             let lhs = member(quote!(self), field);
             let rhs = with_ref(&member(quote!(__rhs), field), rhs_is_ref);
             let rhs_ty = with_ref(field_ty, rhs_is_ref);
             exprs.push(quote!(<#field_ty as #trait_<#rhs_ty>>::#func_name(&mut #lhs, #rhs)));
             field.push_bounds_to(use_bounds, kind, &mut wcb);
         }
-        let wheres = wcb.build(|ty| match rhs_is_ref {
-            true => parse_quote!(for<'__a> #ty : #trait_<&'__a #ty>),
-            false => parse_quote!(#ty : #trait_<#ty>),
+        let wheres = wcb.build(|ty| {
+            let ty = &atomic_type(ty);
+            match rhs_is_ref {
+                true => parse_quote!(for<'__a> #ty : #trait_<&'__a #ty>),
+                false => parse_quote!(#ty : #trait_<#ty>),
+            }
         });
         quote! {
             #[automatically_derived]
@@ -299,7 +305,7 @@ fn build_unary_op(
         let mut values = Vec::new();
         for field in fields {
             // In `impl ... for &T`, `Self` is not the type the field was declared in.
-            let field_ty = &expand_self(&field.field.ty, &this_ty);
+            let field_ty = &atomic_type(&expand_self(&field.field.ty, &this_ty));
             let lhs = with_ref(&member(quote!(self), field), lhs_is_ref);
             let lhs_ty = with_ref(field_ty, lhs_is_ref);
             values.push(quote!(<#lhs_ty as #trait_>::#func_name(#lhs)));
@@ -307,9 +313,12 @@ fn build_unary_op(
         }
         let ctor_args = build_ctor_args(&item.fields, &values);
         wcb.expand_self_in_types(&this_ty);
-        let wheres = wcb.build(|ty| match lhs_is_ref {
-            true => quote!(for<'__a> &'__a #ty : #trait_<Output = #ty>),
-            false => quote!(#ty : #trait_<Output = #ty>),
+        let wheres = wcb.build(|ty| {
+            let ty = &atomic_type(ty);
+            match lhs_is_ref {
+                true => quote!(for<'__a> &'__a #ty : #trait_<Output = #ty>),
+                false => quote!(#ty : #trait_<Output = #ty>),
+            }
         });
         quote! {
             #[automatically_derived]
